@@ -142,9 +142,11 @@ impl StreamAlphaNode {
                 }
             }
 
-            // Add to buffer and evict old events
+            // Add to buffer, evict expired events, then apply the size limit
+            // (in that order, so expired events never count against the limit)
             self.add_event(event.clone());
             self.evict_expired_events();
+            self.enforce_max_events();
         }
 
         matches
@@ -163,8 +165,10 @@ impl StreamAlphaNode {
         {
             self.last_session_event_timestamp = Some(event_timestamp);
         }
+    }
 
-        // Keep buffer size under limit
+    /// Keep buffer size under limit (oldest arrivals go first)
+    fn enforce_max_events(&mut self) {
         while self.events.len() > self.max_events {
             self.events.pop_front();
         }
@@ -229,14 +233,10 @@ impl StreamAlphaNode {
                 WindowType::Sliding => {
                     let cutoff_time = current_time.saturating_sub(window_duration_ms);
 
-                    // Remove events older than cutoff
-                    while let Some(event) = self.events.front() {
-                        if event.metadata.timestamp < cutoff_time {
-                            self.events.pop_front();
-                        } else {
-                            break;
-                        }
-                    }
+                    // Remove events older than cutoff. Events can arrive out of
+                    // timestamp order, so every event is checked, not just the front.
+                    self.events
+                        .retain(|event| event.metadata.timestamp >= cutoff_time);
                 }
                 WindowType::Tumbling => {
                     let window_start = (current_time / window_duration_ms) * window_duration_ms;
